@@ -62,21 +62,27 @@ def handle_violation(prop, r, units):
             if nr["reproduced"] is True:
                 doc["verdict"] = "counter-example reproduced natively against the real code: " + nr.get("panic", "")
             elif nr["reproduced"] is False:
-                doc["verdict"] = "Kani check failed; the native run of the same harness body with the recorded values completed (check is only visible to the bit-precise verifier, e.g. an overflow in release arithmetic or a pointer check)"
+                doc["verdict"] = "NOT REPRODUCED: Kani reported a failed check, but the same harness body run natively with the recorded values completed without failure"
+                write_json(path, doc)
+                return "UNDECIDED property=%s replay=%s" % (prop, path), "not-reproduced"
+            elif "REPLAY-ASSUMPTION-VIOLATED" in nr.get("output", ""):
+                doc["verdict"] = "NOT REPRODUCED: the values of Kani's counter-example do not satisfy the harness' own assumptions when executed natively (verifier imprecision)"
+                write_json(path, doc)
+                return "UNDECIDED property=%s replay=%s" % (prop, path), "not-reproduced"
             else:
-                doc["verdict"] = "Kani check failed; native replay inconclusive"
+                doc["verdict"] = "Kani check failed; native replay inconclusive (replay infrastructure problem, see output)"
         else:
             doc["verdict"] = "Kani check failed; no concrete values were produced by the verifier"
             suffix = " no-failing-input-found"
         write_json(path, doc)
-        return "VIOLATION property=%s replay=%s%s" % (prop, path, suffix)
+        return "VIOLATION property=%s replay=%s%s" % (prop, path, suffix), "violation"
     # verus
     path = os.path.join(REPLAYS, prop, "%s.%s.json" % (r["task"], stamp))
     doc = {"property": prop, "backend": "verus", "task": r["task"], "failed_obligations": r["failed_obligations"],
            "generated_file": r.get("generated_file"), "verus_cmd": r.get("cmd"), "verifier_output": r.get("verus_output"),
            "verdict": "proof obligation failed on the code extracted from the current tree; Verus gives no counter-example"}
     write_json(path, doc)
-    return "VIOLATION property=%s replay=%s no-failing-input-found" % (prop, path)
+    return "VIOLATION property=%s replay=%s no-failing-input-found" % (prop, path), "violation"
 
 
 def replay_file(path):
